@@ -18,6 +18,10 @@ import (
 
 type Directory struct {
 	sync.RWMutex
+	// mutMu serializes the operations that change the structure of the catalog under the root
+	// directory (AddTimeBucket, RemoveTimeBucket, GetSubDirectoryAndAddFile). It is taken before
+	// the directory's RWMutex and only on the root.
+	mutMu sync.Mutex
 
 	// itemName is the instance of the category. e.g. itemName: "AAPL", category: "Symbol"
 	itemName string
@@ -179,6 +183,8 @@ func writeCategoryNameFile(catName, dirName string) error {
 // AddTimeBucket adds a (possibly) new data item to a rootpath. Takes an existing catalog directory and
 // adds the new data item to that data directory. This is used only for a root category directory.
 func (d *Directory) AddTimeBucket(tbk *io.TimeBucketKey, f *io.TimeBucketInfo) (err error) {
+	d.mutMu.Lock()
+	defer d.mutMu.Unlock()
 	d.Lock()
 	defer d.Unlock()
 
@@ -261,6 +267,10 @@ func (d *Directory) RemoveTimeBucket(tbk *io.TimeBucketKey) (err error) {
 	if err = tbk.Validate(); err != nil {
 		return err
 	}
+	// RemoveTimeBucket works in several short lock sections on different directories; without
+	// mutMu an AddTimeBucket for the same symbol could run between them.
+	d.mutMu.Lock()
+	defer d.mutMu.Unlock()
 
 	datakeySplit := tbk.GetItems()
 
@@ -459,6 +469,8 @@ func (d *Directory) GetPath() string {
 }
 
 func (d *Directory) GetSubDirectoryAndAddFile(fullFilePath string, year int16) (*io.TimeBucketInfo, error) {
+	d.mutMu.Lock()
+	defer d.mutMu.Unlock()
 	d.Lock()
 	defer d.Unlock()
 	dirPath := path.Dir(fullFilePath)
